@@ -220,437 +220,630 @@ sym
 } // c167a
   // c167b
 ")).
-Eval vm_compute in ("<<<M136>>>" ++ check (runes_of_ascii "//	t
-packet MetaDataX  {
-@leftPad ( ) repeat
-float64 asx, }MetaData
-Foo { // a // b
-char[65535 ]
-    Pad ,} packet
-    body// 50% %s
-{
-match
-asx as charz
-{// `tick` ""quote"" 'q'
-10 : u8x ,	""it's"" : leftPad ,3 :
-metadata
-// trailing space 
-//x
-,
-    ""it's""
-:
-x,
-    [ 65535,""" ++ [233]%N ++ runes_of_ascii "t" ++ [233]%N ++ runes_of_ascii """ ] :u128
-    ,
-10:// @lengthOf(
-len } ,
-repeat f32 rootA `` , // 50% %s
-@leftPad (
-    //
-    ' ' ) repeat i64
-    BodyLength // c
-,repeatCount {i16 crc @lengthOf( u128 ) ,} , u16// " ++ [27880; 37322]%N ++ runes_of_ascii "
-u @lengthOf(f32a)`// not a comment` ,// trailing space 
-len
-    { match Logon as // @lengthOf(
-Foo { """ ++ [233]%N ++ runes_of_ascii "t" ++ [233]%N ++ runes_of_ascii """
-:stringy,10
-: msg_type ,//	t
-[""\n""
-    , ""`tick`""
-, ""abc""	,
-""""
-    ,	007	,  1
-    , ""a\""b""  ] :
-i64_ // packet A { u8 x, }
-, 255
-    //x
-    : T ,""{,}"": f32a }  , string
+Eval vm_compute in ("<<<M121>>>" ++ check (runes_of_ascii "options {
     tag
-@lengthOf( Z9_ ) ,
-    // a // b
-    u32 charz `crlf
-line`
-, u8x
-@lengthOf(/// triple
-rootA  )  ,
-} , float	, int8  repeatCount @lengthOf(f32a )
-    `crlf
-line` , zchar[
-    // packet A { u8 x, }
-    7 // a // b
-] BodyLength
-    @lengthOf( string_// a // b
+=
+int32 ; } root
+    packet T { repeat a1 { match x_y_z as charz { [	00,
+// trailing space 
+// c
+4294967296,""it's"" ,
+    // " ++ [128512]%N ++ runes_of_ascii " emoji
+    """ ++ [28040; 24687]%N ++ runes_of_ascii """ ]:	zchar
+, [ ""packet"" ,
+/// triple
+/// triple
+""x y"" , ""it's"" ,""abc""
+,""it's""
+    ]	: string_, 0  :Z9_ } , }
+// `tick` ""quote"" 'q'
+// " ++ [128512]%N ++ runes_of_ascii " emoji
+, match u8x as pack { [
+0123456789
+    //
+    , ""x y"" /// triple
+] :trueish, } , @calculatedFrom( ""a\""b"" ) repeat string_`two words` ,repeat //	t
+calculatedFrom
+`crlf
+line` , chars  {i16 chars , }  ,
+    } MetaData x_y_z{  }
+    options
+    {  } packet charz { u16 i64_@lengthOf( Packet ) `say ""hi""`
+    ,	match len as Packet {
+    [ """ ++ [28040; 24687]%N ++ runes_of_ascii """
+    // trailing space 
+    ] : chars ,4294967296
+:a1 ,
+    1 : int
+,
+// c
+// a // b
+42: Logon[ 255 ]
+    //
+    :
+    Packet , }, // `tick` ""quote"" 'q'
+@lengthOf(
+a1
+    ) body  { repeat	u32
+    Z9_ `doc` , }, @leftPad (
+    '\x00'
+)int16
+options1 @calculatedFrom(
+    """ ++ [233]%N ++ runes_of_ascii "t" ++ [233]%N ++ runes_of_ascii """	) ,@tag( 65535 ) repeat leftPad
+    `100% of %d`
+, //	t
+@calculatedFrom( ""x y"" ) @lengthOf(	Header ) @tag( 1
+) match // `tick` ""quote"" 'q'
+Foo
+    as	T
+{ 0123456789 :T// @lengthOf(
+,
+10	: charz , """ ++ [28040; 24687]%N ++ runes_of_ascii """ : Packet[0123456789 //x
+,	""// no comment"",
+7
+    ,  00 //
+, 10
+    ,3 ,
+00 ,
+""\" ++ [233]%N ++ runes_of_ascii """] : Foo }
+,
+@calculatedFrom( ""packet"" ) @rightPad	( ' ' ) @tag( 0)i64 chars , @lengthOf(
+    MetaDataX
+    ) int8 A
+@lengthOf( repeatCount ) `a\` ,char[1  ] roots
+@calculatedFrom(  """ ++ [128512]%N ++ runes_of_ascii """
+) ,
+}
+")).
+Eval vm_compute in ("<<<M1377>>>" ++ check (runes_of_ascii "// top
+options
+    // c0
+{ ArrayPrefixLenType // c2a
+  // c2b
+=
+    // c3
+u64 // c4
+;
+    // c5
+FixedStringPadFromLeft
+    // c6
+= // c7a
+  // c7b
+true // c8
+;
+    // c9
+FixedStringPadChar // c10
+= // c11
+'0'
+    // c12
+; // c13a
+  // c13b
+}
+    // c14
+packet // c15
+Order {
+    // c17
+}
+    // c18
+root // c19a
+  // c19b
+packet // c20
+Leg // c21a
+  // c21b
+{ // c22a
+  // c22b
+char[] Ref
+    // c24
+, // c25a
+  // c25b
+repeat // c26
+Order // c27a
+  // c27b
+, // c28a
+  // c28b
+f32 // c29
+Acct
+    // c30
+,
+    // c31
+@leftPad
+    // c32
+( // c33a
+  // c33b
+'0'
+    // c34
+) char[ 10 ] // c38
+venue // c39a
+  // c39b
+, // c40
+@rightPad // c41a
+  // c41b
+(
+    // c42
+'0' // c43a
+  // c43b
+) char[ 3
+    // c46
+] // c47
+seqNo // c48
+,
+    // c49
+repeat u64 // c51
+Px // c52a
+  // c52b
+,
+    // c53
+u8 // c54
+Flags , // c56
+u32
+    // c57
+lastPx // c58
+@lengthOf( Body )
+    // c61
+,
+    // c62
+match // c63
+Flags
+    // c64
+as
+    // c65
+Body // c66a
+  // c66b
+{
+    // c67
+185 : Order , // c71a
+  // c71b
+}
+    // c72
+, // c73
+u16 // c74
+sym // c75a
+  // c75b
+@calculatedFrom( // c76
+""CRC32"" // c77a
+  // c77b
 )
-    ,} packet u128 {	x`// not a comment`  , }//
-packet
-x { A  `doc`
-, Packet@calculatedFrom(// `tick` ""quote"" 'q'
-""\" ++ [233]%N ++ runes_of_ascii """)	`say ""hi""` ,
-repeat string asx
-,
-@lengthOf(	MetaDataX ) repeat char[ 4294967296 //
-]
-    string_`u8 x,` ,
-    @lengthOf( charz
-) char[ 0123456789	] f32a  `say ""hi""`
-,
+    // c78
+, // c79a
+  // c79b
 }
+    // c80
 ")).
-Eval vm_compute in ("<<<M1526>>>" ++ check (runes_of_ascii "root packet u8x {
-    body @lengthOf(i64_) ``,
-    @lengthOf(Foo)
-    //x
-    // `tick` ""quote"" 'q'
-    string_ @lengthOf(int),
-    @lengthOf(rootA)
-    @tag(255)
-    match Logon as roots {
-        1 : x_y_z,
-    },
+Eval vm_compute in ("<<<M1636>>>" ++ check (runes_of_ascii "options {
+    packetx = 42;
 }
 
-packet len {
-    @tag(0123456789)
-    @leftPad( '\x00' )
-    i8i8 {
-        //x
-        // @lengthOf(
-        len `u8 x,`,
+root packet falsey {
+    @tag(1)
+    crc {
+        repeat char[007] charz `it's`,
+        repeat u8 len `
+        `,
+        crc trueish,
     },
-    @tag(0123456789)
-    u8x A,
-    char[007] int,
-    @leftPad(
-    '\x00')
-    float64 len `100% of %d`,
-}
-
-packet crc {
-    // `tick` ""quote"" 'q'
-    // `tick` ""quote"" 'q'
-    match calculatedFrom as leftPad {
-        [""" ++ [233]%N ++ runes_of_ascii "t" ++ [233]%N ++ runes_of_ascii """] : Foo,
-        ""1"" : Packet,
-        1 : stringy,
-        [4294967296, ""a	b""] : leftPad,
+    match float as string_ {
+        ""x y"" : zchar,
+        """ ++ [128512]%N ++ runes_of_ascii """ : string_,
+        ""CRC32"" : options1,
+        [""1""] : crc,
+        ""packet"" : options1,
         [
-            """ ++ [233]%N ++ runes_of_ascii "t" ++ [233]%N ++ runes_of_ascii """, """", 4294967296, 0123456789, 4294967296,
-            ""CRC32"", 0123456789, """"
-        ] : rootA,
+            42, ""a	b"", """ ++ [233]%N ++ runes_of_ascii "t" ++ [233]%N ++ runes_of_ascii """, ""abc"", 0123456789,
+            ""{,}"", 00, """ ++ [233]%N ++ runes_of_ascii "t" ++ [233]%N ++ runes_of_ascii """
+        ] : asx,
     },
-    @rightPad(
-        )
-    roots {
-        As,
-        repeat zchar[1] falsey,
-        repeat char[] repeatCount,
-    },
-    roots `a\`,
-    match charz as i8i8 {
-        [""\" ++ [233]%N ++ runes_of_ascii """, """ ++ [233]%N ++ runes_of_ascii "t" ++ [233]%N ++ runes_of_ascii """] : o,
-        42 : matchKey,
-        00 : body,
-        ""a\\"" : rootA,
-    },
+    repeat f64 charz,
+    @tag(10)
+    repeat charz Logon,
+    @lengthOf(u8x)
+    @calculatedFrom(""a\""b"")
+    @rightPad(' ')
+    u8 a1 `u8 x,`,
+}
+
+packet falsey {
+    repeat char[] zchar,
+    @tag(255)
+    @calculatedFrom(""`tick`"")
+    char[] asx `say ""hi""`,
+    u8 As `u8 x,`,// 50% %s
+    zchar[00] uint8x @lengthOf(zchar),
+    char[255] uint8x,
+    Pad @lengthOf(_x) `" ++ [233]%N ++ runes_of_ascii "`,
+    _x,
+    @rightPad(' ')
+    uint16 BodyLength,
+    @lengthOf(int)
+    metadata tag,
+    int64 string_ `
+    `,
+}
+
+root packet o {
+}
+
+options {
 }")).
-Eval vm_compute in ("<<<M1352>>>" ++ check (runes_of_ascii "options {
-    LittleEndian = true;
-    StringPrefixLenType = u8;
-    ArrayPrefixLenType = u8;
-    FixedStringPadFromLeft = true;
-    FixedStringPadChar = '0';
-}
-packet Logon {
-    repeat i8 Ref,
-    @rightPad('0') char[8] msgKind,
-    repeat InOrderid72 {
-        u8 Side2,
-        uint32 Qty,
-        repeat InPrice27 {
-            repeat char[4] Acct,
-            u64 sym,
-        },
-        zchar[4] clOrdID,
-        int16 lastPx,
-        InAcct22 {
-            repeat char[3] OrderId,
-        },
-    },
-    int64 Px,
-}
-packet Fill {
-    uint16 Qty,
-    repeat char[1] Flags,
-    i8 Ref,
-}
-packet Logout {
-    @leftPad('0') char[3] x,
-    int8 f1,
-    Logon,
-    uint16 venue,
-    zchar[2] Px,
-}
-packet Reject {
-}
-root packet Leg {
-    Fill,
-    u16 msgKind,
-    match msgKind as Body {
-        [182, 83] : Fill,
-        199 : Reject,
-        137 : Logout,
-        35 : Logon,
-    },
-    u32 lastPx @calculatedFrom(""CRC32""),
+Eval vm_compute in ("<<<M353>>>" ++ check (runes_of_ascii "root packet rootA {} packet // 50% %s
+Z9_ { repeat char[ 007] f32a , @rightPad ( )
+u32 Header `a\`,repeat Z9_, repeat i8i8
+    // 50% %s
+    int `u8 x,` // a // b
+, // `tick` ""quote"" 'q'
+uint8x , f64
+// @lengthOf(
+// `tick` ""quote"" 'q'
+i8i8  `" ++ [28040; 24687; 31867; 22411]%N ++ runes_of_ascii "` , @tag(
+//x
+// 50% %s
+3 ) // `tick` ""quote"" 'q'
+@tag(  3 ) @tag( 10
+) repeat int{ MetaDataX ,	} , @tag( 10 ) int8
+    // " ++ [128512]%N ++ runes_of_ascii " emoji
+    pack@lengthOf(	x ) ,
+    } packet metadata {
+    @calculatedFrom(""" ++ [233]%N ++ runes_of_ascii "t" ++ [233]%N ++ runes_of_ascii """ ) repeat
+    rootA uint8x, @calculatedFrom( ""\n"" ) @lengthOf(len ) BodyLength{ matchKey f32a `a\`
+,} ,
+char[]leftPad
+`tab	here`
+    ,
+    // " ++ [27880; 37322]%N ++ runes_of_ascii "
+    u32  a1,} packet
+trueish { @tag( 007 ) f64 f32a  @calculatedFrom( """")`say ""hi""`/// triple
+, @calculatedFrom( ""packet""
+    ) @calculatedFrom(
+    """ ++ [28040; 24687]%N ++ runes_of_ascii """// trailing space 
+)repeat char[	3 ]zchar`
+` , } MetaData tag
+{
 }
 ")).
-Eval vm_compute in ("<<<M1395>>>" ++ check (runes_of_ascii "// top
-options // c0
+Eval vm_compute in ("<<<M1382>>>" ++ check (runes_of_ascii "
+
+  options 
+{ ArrayPrefixLenType=  u32  ;
+
+FixedStringPadFromLeft =false ;
+
+    FixedStringPadChar 
+='0';}packet
+	Trade
+    {
+	repeat
+
+InVenue78 {u16
+	tag7 
+,repeat InLastpx9	{ 
+u8  pad0
+
+,
+	} , 
+int64
+Tail
+    ,
+
+repeat
+    InQty37 {
+char[ 
+2	]
+OrderId	,	zchar[
+    6] 
+lastPx 
+,
+	int64	Qty
+,
+	}
+	,
+
+uint8	Side2 ,
+
+}	,  }
+	packet Logon 
+{
+
+repeat string
+	venue  , @rightPad (
+
+'\x00'
+	) char[
+
+3]
+
+sym,zchar[ 9
+] count
+    ,zchar[
+7
+]
+
+f1
+	,Trade  ,
+    }
+	packet
+
+Logout{
+	} root packet
+	Reject	{int32	sym ,u8 Px,
+u32 Tail
+@lengthOf(	Body
+
+    )
+,
+
+match 
+Px
+    as Body
+{	184	: 
+Trade
+	,
+    173 :
+    Logon
+,
+
+12  :	Logout,
+    } , u32 
+tag7 @calculatedFrom(""CRC32""
+
+    )
+,
+}")).
+Eval vm_compute in ("<<<M1536>>>" ++ check (runes_of_ascii "options {
+    u128 = ""// no comment""
+}
+
+root packet Z9_ {
+    repeat char[] i8i8,
+    float64 MetaDataX,
+    repeat rootA {
+        msg_type @calculatedFrom(""\" ++ [233]%N ++ runes_of_ascii """),
+        match float as _x {
+            ""a\""b"" : u,
+            [
+                ""a	b"", ""CRC32"", 10, 007, 255,
+                ""x y"", 42, 3
+            ] : msg_type,
+            [
+                ""1"", ""\n"", 4294967296, ""abc"", ""// no comment"",
+                ""\n"", 1
+            ] : int,
+            [10] : As,
+            [0] : zchar,
+            7 : A,
+        },
+    },
+    char[] zchar @lengthOf(tag),
+}
+
+options {
+    body = ""1""
+    trueish = ' ';
+}")).
+Eval vm_compute in ("<<<M189>>>" ++ check (runes_of_ascii "packet body	{ @leftPad (
+    '\x00'
+    ) @tag(42
+    ) @tag( 65535  ) repeat
+    tag u `a\` // `tick` ""quote"" 'q'
+,Z9_ , //	t
+@tag(	10 )
+//	t
+// @lengthOf(
+f32 msg_type `// not a comment` , int16 matchKey
+    @calculatedFrom( ""a	b""
+    // a // b
+    )
+    `it's`  , }
+    packet T/// triple
+{	zchar[7
+    ]matchKey, falsey @lengthOf( stringy	) //x
+`crlf
+line`
+, } root packet options1
+    { @calculatedFrom( ""{,}""
+)
+matchKey @calculatedFrom(  ""`tick`""), zchar[0
+    ] stringy @lengthOf(int ) ,  } packet// packet A { u8 x, }
+msg_type
+{ } 	 ")).
+Eval vm_compute in ("<<<M1674>>>" ++ check (runes_of_ascii "  packet
+uint8x {
+	@calculatedFrom(  """ ++ [233]%N ++ runes_of_ascii "t" ++ [233]%N ++ runes_of_ascii """)	int16 x_y_z
+    // trailing space 
+  //x
+,
+
+repeatCount
+,
+
+Logon	{
+repeat // c
+  	i8
+
+    Packet //
+    	`// not a comment` , }
+
+,@rightPad 
+(  '0'	// trailing space 
+      )string msg_type	,
+
+@calculatedFrom( ""`tick`"" )
+	repeat	Z9_// " ++ [128512]%N ++ runes_of_ascii " emoji
+	repeatCount 
+//
+		// trailing space 
+  	,
+
+    o
+	`doc` ,
+    i64_	Pad,match repeatCount
+
+as
+    roots	{ [ 
+      // packet A { u8 x, }
+    // " ++ [27880; 37322]%N ++ runes_of_ascii "
+	  42
+,
+007 
+] :
+	    // packet A { u8 x, }
+i8i8  ,	},
+	} ")).
+Eval vm_compute in ("<<<M1176>>>" ++ check (runes_of_ascii "// top
+options
+    // c0
 {
     // c1
-LittleEndian // c2a
-  // c2b
-= true // c4a
-  // c4b
-; // c5a
-  // c5b
-} packet Sub { u8
-    // c10
-a
-    // c11
-, @calculatedFrom( ""CRC16"" // c14a
-  // c14b
-)
-    // c15
-uint64
-    // c16
-SubSum , // c18
-} root // c20
+f32a
+    // c2
+=
+    // c3
+0
+    // c4
+}
+    // c5
 packet
+    // c6
+trueish
+    // c7
+{
+    // c8
+}
+    // c9
+MetaData
+    // c10
+_x
+    // c11
+{
+    // c12
+char[
+    // c13
+0123456789
+    // c14
+]
+    // c15
+zchar
+    // c16
+,
+    // c17
+string
+    // c18
+crc
+    // c19
+,
+    // c20
+char[
     // c21
-Frame
+1
     // c22
-{ // c23
-u16 MsgType // c25
-, // c26a
-  // c26b
-u16 // c27a
-  // c27b
-BodyLen
+]
+    // c23
+options1
+    // c24
+,
+    // c25
+uint8
+    // c26
+repeatCount
+    // c27
+,
     // c28
-@lengthOf(
+}
     // c29
-Body // c30a
-  // c30b
-)
-    // c31
-,
-    // c32
-Sub // c33
-Body // c34a
-  // c34b
-, // c35a
-  // c35b
-string // c36a
-  // c36b
-note // c37a
-  // c37b
-, // c38a
-  // c38b
-@calculatedFrom( // c39a
-  // c39b
-""CRC16"" // c40a
-  // c40b
-) // c41
-uint64 // c42a
-  // c42b
-Checksum // c43a
-  // c43b
-,
-    // c44
-u8 // c45a
-  // c45b
-tail // c46a
-  // c46b
-, // c47a
-  // c47b
-}
-    // c48
 ")).
-Eval vm_compute in ("<<<M1388>>>" ++ check (runes_of_ascii "options {
-    LittleEndian = true;
-    StringPrefixLenType = u32;
-    ArrayPrefixLenType = u8;
-}
-packet Heartbeat {
-    string msgKind,
-}
-packet Logon {
-    repeat Heartbeat,
-    repeat string Px,
-    uint8 Tail,
-    char[] f1,
+Eval vm_compute in ("<<<M133>>>" ++ check (runes_of_ascii "MetaData x_y_z {zchar[ 00 ] MetaDataX// a // b
+, }
+root
+packet u { @lengthOf(
+// @lengthOf(
+// a // b
+calculatedFrom
+    )	repeat Header{
+charz  @lengthOf( matchKey)
+    ,	repeat u8// trailing space 
+charz , char[]
+float
+    @calculatedFrom( ""CRC32"" )
+`{ , }`
+, }	,	}
+root packet lengthOf {
+@tag(7 ) @lengthOf( o )
+@tag(
+0 ) BodyLength  @calculatedFrom(
+// " ++ [128512]%N ++ runes_of_ascii " emoji
+//
+""a\\"" )	, } options {
+    f32a=
+    ""// no comment"" ; }")).
+Eval vm_compute in ("<<<M1346>>>" ++ check (runes_of_ascii "packet NewOrder {
+    u32 qty,
 }
 packet Cancel {
-    zchar[4] OrderId,
-    Logon,
-    repeat InMsgkind98 {
-        repeat u8 tag7,
-        repeat InFlags69 {
-            char[] Note,
-            char[] lastPx,
-            char[11] Ref,
-            Logon,
-        },
-        repeat Heartbeat,
-    },
-    zchar[7] Px,
-    u32 seqNo,
+    u64 id,
 }
-root packet Reject {
-    i16 tag7,
-    char[3] Qty,
-    InRef42 {
-        u8 pad0,
+packet Business {
+    u8 Kind,
+    match Kind as Detail {
+        1 : NewOrder,
+        2 : Cancel,
     },
-    uint32 f1,
-    zchar[7] OrderId,
-    zchar[8] x,
+}
+packet TcpFrame {
+    u8 T,
+    match T as Body {
+        1 : Business,
+    },
+}
+packet UdpFrame {
+    u8 U,
+    match U as Body {
+        1 : Business,
+    },
+    Business extra,
+}
+root packet Wire {
+    TcpFrame,
+    UdpFrame,
 }
 ")).
-Eval vm_compute in ("<<<M1579>>>" ++ check (runes_of_ascii "packet Logon {
-    @lengthOf(leftPad)
-    repeat calculatedFrom {
-        match x_y_z as Z9_ {
-            7 : MetaDataX,
-            [""a\""b"", 42] : uint8x,
-            00 : stringy,
-            // packet A { u8 x, }
-            0 : leftPad,
-            65535 : tag,
-            [
-                4294967296, ""packet"", 1, 0123456789, 1,
-                ""{,}"", 42, ""abc""
-            ] : uint8x,
-        },
-        string rootA `two words`,
-        uint32 A,
-        char[0] T,
-    },
-    @tag(007)
-    repeat zchar[7] f32a `
-        `,
-    @lengthOf(T)
-    float32 stringy `two words`,
-}")).
-Eval vm_compute in ("<<<M61>>>" ++ check (runes_of_ascii "MetaData trueish // " ++ [128512]%N ++ runes_of_ascii " emoji
-{
-uint64
-Z9_	`u8 x,` // packet A { u8 x, }
-, zchar[ 3 ]	tag , } root packet tag// " ++ [128512]%N ++ runes_of_ascii " emoji
-{Packet	chars ,  }	packet trueish
-    { @lengthOf(
-    roots )string repeatCount , @calculatedFrom( ""1""
-) @leftPad// 50% %s
-(	'\x00' ) @tag(3
-)
-    int16 stringy ,
-    // `tick` ""quote"" 'q'
-    @rightPad
-( '0'
-    ) @rightPad('\x00')
-//
-// c
-@lengthOf(
-    x ) repeat	trueish pack
-    `a\`, len // " ++ [128512]%N ++ runes_of_ascii " emoji
-, @tag( 3 ) char packetx , } // `tick` ""quote"" 'q'
-packet u
+Eval vm_compute in ("<<<M1915>>>" ++ check (runes_of_ascii "  packet
+a1	{
+
+    zchar[ 
+0 
+]
+    x 
+`say ""hi""`
+	,
+
+    }	packet 	 // trailing space 
+    BodyLength
     {
-u64 options1 //	t
-, }	options { }
-")).
-Eval vm_compute in ("<<<M1755>>>" ++ check (runes_of_ascii "packet x_y_z {
-    repeat asx {
-        falsey @lengthOf(u) `100% of %d`,
-        repeat matchKey {
-            x_y_z @calculatedFrom(""a\\""),
-            i64 calculatedFrom @calculatedFrom(""// no comment"") `{ , }`,
-        },
-        // c
-        //	t
-        char[007] Foo @calculatedFrom(""abc""),
-    },
-    repeat uint32 Pad,
-    repeat Logon {
-        Logon {
-            char[] packetx @calculatedFrom(""it's"") `
-            `,
-        },
-        i8 len,
-        asx,
-    },
-}")).
-Eval vm_compute in ("<<<M1414>>>" ++ check (runes_of_ascii "options {
-    ArrayPrefixLenType = u64;
-    FixedStringPadFromLeft = true;
-    FixedStringPadChar = '0';
-}
+    match
+Pad as
 
-packet Order {
-}
+    A
+{  ""\n"" 
+:
 
-root packet Leg {
-    char[] Ref,
-    repeat Order,
-    f32 Acct,
-    @leftPad('0')
-    char[10] venue,
-    @rightPad('0')
-    char[3] seqNo,
-    repeat u64 Px,
-    u8 Flags,
-    u32 lastPx @lengthOf(Body),
-    match Flags as Body {
-        185 : Order,
-    },
-    u16 sym @calculatedFrom(""CR\
-    C32""),
-}")).
-Eval vm_compute in ("<<<M1840>>>" ++ check (runes_of_ascii "root packet leftPad {
-    T @lengthOf(A) `" ++ [28040; 24687; 31867; 22411]%N ++ runes_of_ascii "`,
-    Header @lengthOf(As),
-    string calculatedFrom `" ++ [233]%N ++ runes_of_ascii "`,
-    @calculatedFrom(""a	b"")
-    repeat x_y_z {
-        char[] T,
-        uint8x {
-            char[007] Packet @calculatedFrom(""`tick`"") `100% of %d`,
-        },
-    },
-    char[] T @lengthOf(f32a),
-    //x
-    options1 Z9_,
-    char[007] body `it's`,
-    repeat zchar[42] Packet `{ , }`,
-}// a // b")).
-Eval vm_compute in ("<<<M141>>>" ++ check (runes_of_ascii "packet
-string_ { @tag( 4294967296 ) repeat u	`crlf
-line`
-    , repeat zchar[ 0
-    ]BodyLength
-    , @tag( 255	) int  `say ""hi""` ,uint8x`u8 x,` ,@leftPad(' ' ) string
-MetaDataX @lengthOf(
-options1)
-, zchar[00 // packet A { u8 x, }
-]  charz  `" ++ [28040; 24687; 31867; 22411]%N ++ runes_of_ascii "` ,@calculatedFrom(
-""" ++ [128512]%N ++ runes_of_ascii """
-) _x calculatedFrom ,uint8 //
-packetx
-    `it's` ,@leftPad ( ) zchar[ 0 ] Foo
-`a\` ,
-}
+len}
+    , }
+MetaData
+
+repeatCount 
+{	string tag ,	}  MetaData
+    trueish
+    {  u128
+
+string_ 
+, char[
+	00	// trailing space 
+	] o,
+string  tag ,}
+	packet calculatedFrom 
+{
+
+    BodyLength
+`tab	here`
+,}
 ")).
 Eval vm_compute in ("<<<M1375>>>" ++ check (runes_of_ascii "  options {StringPrefixLenType = u16
 
@@ -688,456 +881,447 @@ root packet Party{ float64 Px
     ,	zchar[  1 ] clOrdID
     ,	}
 ")).
-Eval vm_compute in ("<<<M1453>>>" ++ check (runes_of_ascii "options {
-    roots = 0123456789;//x
-}
+Eval vm_compute in ("<<<M1432>>>" ++ check (runes_of_ascii "
+// packet A { u8 x, }
+root packet
 
-options {
-}
+zchar {
 
-packet crc {
-    crc @lengthOf(Pad) `{ , }`,
-    @lengthOf(Logon)
-    char[] BodyLength,
-    @leftPad(
-        '0'
-        )
-    @leftPad(  )
-    @rightPad(	'\x00'
-    )
-    char f32a @lengthOf(body),
-    @tag(255)
-    string body ``,
-}")).
-Eval vm_compute in ("<<<M1325>>>" ++ check (runes_of_ascii "packet MDSnapshotZZ {
-    u8 a,
-}
-packet OrderACK {
-    u16 b,
-}
-packet HTTPServerInfo {
-    string s,
-}
-root packet FIXMsg {
-    u8 KType,
-    MDSnapshotZZ,
-    repeat OrderACK,
-    match KType as Body {
-        1 : HTTPServerInfo,
-        2 : OrderACK,
-    },
-}
-")).
-Eval vm_compute in ("<<<M388>>>" ++ check (runes_of_ascii "packet packet
-    asx { @calculatedFrom(
-""""  ) @tag( 255 )repeat
-// packet A { u8 x, }
-// trailing space 
-int16 u8x
-,
-@tag(
-    //
-    007 )
-    @tag( 0
-    /// triple
-    ) @tag( 1) u
-    @lengthOf( T ),
-// `tick` ""quote"" 'q'
-//x
-} // " ++ [128512]%N ++ runes_of_ascii " emoji")).
-Eval vm_compute in ("<<<M427>>>" ++ check (runes_of_ascii "packet
-    asx { @calculatedFrom(
-""""  ) @tag( 255 ) )repeat
-// packet A { u8 x, }
-// trailing space 
-int16 u8x
-,
-@tag(
-    //
-    007 )
-    @tag( 0
-    /// triple
-    ) @tag( 1) u
-    @lengthOf( T ),
-// `tick` ""quote"" 'q'
-//x
-} // " ++ [128512]%N ++ runes_of_ascii " emoji")).
-Eval vm_compute in ("<<<M393>>>" ++ check (runes_of_ascii "packet
-    { asx @calculatedFrom(
-""""  ) @tag( 255 )repeat
-// packet A { u8 x, }
-// trailing space 
-int16 u8x
-,
-@tag(
-    //
-    007 )
-    @tag( 0
-    /// triple
-    ) @tag( 1) u
-    @lengthOf( T ),
-// `tick` ""quote"" 'q'
-//x
-} // " ++ [128512]%N ++ runes_of_ascii " emoji")).
-Eval vm_compute in ("<<<M519>>>" ++ check (runes_of_ascii "packet
-    asx { @calculatedFrom(
-""""  ) @tag( 255 )repeat
-// packet A { u8 x, }
-// trailing space 
-int16 u8x
-,
-@tag(
-    //
-    007 )
-    @tag( 0
-    /// triple
-    ) @tag( 1) u
-    @lengthOf( T );
-// `tick` ""quote"" 'q'
-//x
-} // " ++ [128512]%N ++ runes_of_ascii " emoji")).
-Eval vm_compute in ("<<<M481>>>" ++ check (runes_of_ascii "packet
-    asx { @calculatedFrom(
-""""  ) @tag( 255 )repeat
-// packet A { u8 x, }
-// trailing space 
-int16 u8x
-,
-@tag(
-    //
-    007 )
-    @tag( 0
-    /// triple
-    )  1) u
-    @lengthOf( T ),
-// `tick` ""quote"" 'q'
-//x
-} // " ++ [128512]%N ++ runes_of_ascii " emoji")).
-Eval vm_compute in ("<<<M221>>>" ++ check (runes_of_ascii "packet msg_type { }  packet
-Z9_ {
-roots i8i8,	@lengthOf( string_	)
-char[
-255
-]i64_ , repeat u16 packetx `it's`
-, char[ 255  ]
-u8x	,
-@rightPad(
-'0') @tag(  0123456789
-) zchar[ 7 ]tag
-    `tab	here` ,u32
-charz ``, }
-")).
-Eval vm_compute in ("<<<M338>>>" ++ check (runes_of_ascii "root packet trueish// packet A { u8 x, }
-{ @tag( 00
+@leftPad
+    ( 
+'\x00')
+	repeat
+Logon  BodyLength	,
+@rightPad  (
+	)
+	@calculatedFrom(
+    ""a\""b"" ) @tag( 42
+
+)
+repeat
+	_x MetaDataX
     // 50% %s
-    ) rootA @lengthOf( float) ,
-@rightPad (
-'0' ) pack string_ ,
-    }  packet i8i8
-    {
-string o
-    @calculatedFrom( """ ++ [128512]%N ++ runes_of_ascii """	)
-, }
-")).
-Eval vm_compute in ("<<<M1306>>>" ++ check (runes_of_ascii "  packet
-A
-{u8
-	a ,
-    }
-    packet
-B
-    {	u16
-	b
+      ,
+    @leftPad//x
+		(
 
+    '0'
+	)	string
+
+calculatedFrom 
+@calculatedFrom(
+""it's"" ) ,
+	}")).
+Eval vm_compute in ("<<<M361>>>" ++ check (runes_of_ascii "// packet A { u8 x, }
+root packet  zchar { @leftPad
+    ( '\x00' )repeat Logon BodyLength
+, @rightPad (  ) @calculatedFrom(
+""a\""b""
+    )@tag( 42
+)
+repeat _x MetaDataX
+    // 50% %s
+    ,@leftPad //x
+( '0'
+    )string calculatedFrom @calculatedFrom( ""it's"" )
+    ,}")).
+Eval vm_compute in ("<<<M399>>>" ++ check (runes_of_ascii "packet
+    asx options @calculatedFrom(
+""""  ) @tag( 255 )repeat
+// packet A { u8 x, }
+// trailing space 
+int16 u8x
 ,
-}
-root	packet P
-	{ u8
-K1,
-u8
-	K2 ,
-    match K1
-
-as
-
-M1 {
-1
-:
-    A
+@tag(
+    //
+    007 )
+    @tag( 0
+    /// triple
+    ) @tag( 1) u
+    @lengthOf( T ),
+// `tick` ""quote"" 'q'
+//x
+} // " ++ [128512]%N ++ runes_of_ascii " emoji")).
+Eval vm_compute in ("<<<M477>>>" ++ check (runes_of_ascii "packet
+    asx { @calculatedFrom(
+""""  ) @tag( 255 )repeat
+// packet A { u8 x, }
+// trailing space 
+int16 u8x
 ,
-	}  ,	match
-
-    K2
-
-as 
-M2{1
-:
-
-B
-    , }
-
-,  }
-")).
-Eval vm_compute in ("<<<M629>>>" ++ check (runes_of_ascii "MetaData u
-    { } MetaData o
-{ float uint8x
-`100% of %d` ,repeatCount u8x, string_ leftPad
-float32 i32
-    Foo , int64 x `two words` , calculatedFrom
-stringy `a\` ,
-}
-")).
-Eval vm_compute in ("<<<M577>>>" ++ check (runes_of_ascii "MetaData u
-    { } MetaData o
-{ { float uint8x
-`100% of %d` ,repeatCount u8x, string_ leftPad
-, i32
-    Foo , int64 x `two words` , calculatedFrom
-stringy `a\` ,
-}
-")).
-Eval vm_compute in ("<<<M550>>>" ++ check (runes_of_ascii "@leftPad u
-    { } MetaData o
-{ float uint8x
-`100% of %d` ,repeatCount u8x, string_ leftPad
-, i32
-    Foo , int64 x `two words` , calculatedFrom
-stringy `a\` ,
-}
-")).
-Eval vm_compute in ("<<<M717>>>" ++ check (runes_of_ascii "packet
-crc
-{repeat  Foo A  `u8 x,` ,	@lengthOf( uint8x ) string
-matchKey @lengthOf( " ++ [252]%N ++ runes_of_ascii "ber ) `a\`
+@tag(
+    //
+    007 )
+    @tag( 0
+    /// triple
+    ) ) @tag( 1) u
+    @lengthOf( T ),
+// `tick` ""quote"" 'q'
+//x
+} // " ++ [128512]%N ++ runes_of_ascii " emoji")).
+Eval vm_compute in ("<<<M429>>>" ++ check (runes_of_ascii "packet
+    asx { @calculatedFrom(
+""""  ) @tag( 255 ;repeat
+// packet A { u8 x, }
+// trailing space 
+int16 u8x
 ,
-    // c
-    }
-MetaData chars{
-leftPad
-    //	t
-    crc
-`" ++ [233]%N ++ runes_of_ascii "`
-,}")).
-Eval vm_compute in ("<<<M584>>>" ++ check (runes_of_ascii "MetaData u
-    { } MetaData o
-{ : uint8x
-`100% of %d` ,repeatCount u8x, string_ leftPad
-, i32
-    Foo , int64 x `two words` , calculatedFrom
-stringy `a\` ,
+@tag(
+    //
+    007 )
+    @tag( 0
+    /// triple
+    ) @tag( 1) u
+    @lengthOf( T ),
+// `tick` ""quote"" 'q'
+//x
+} // " ++ [128512]%N ++ runes_of_ascii " emoji")).
+Eval vm_compute in ("<<<M411>>>" ++ check (runes_of_ascii "packet
+    asx { @calculatedFrom(
+""""   @tag( 255 )repeat
+// packet A { u8 x, }
+// trailing space 
+int16 u8x
+,
+@tag(
+    //
+    007 )
+    @tag( 0
+    /// triple
+    ) @tag( 1) u
+    @lengthOf( T ),
+// `tick` ""quote"" 'q'
+//x
+} // " ++ [128512]%N ++ runes_of_ascii " emoji")).
+Eval vm_compute in ("<<<M336>>>" ++ check (runes_of_ascii "// c
+options {As
+='0'// 50% %s
+;
+float =
+    //
+    char[]	u =
+    ""a\""b"" ; msg_type = u32 ;	falsey = 7 ;/// triple
 }
-")).
-Eval vm_compute in ("<<<M1855>>>" ++ check (runes_of_ascii "MetaData len {
-    x_y_z options1 `// not a comment`,
-    f32 msg_type `
-    `,
-    char[] string_,
-}// c
+    // a // b
+    packet x_y_z { T// " ++ [27880; 37322]%N ++ runes_of_ascii "
+``, } packet
+    pack{ @leftPad ( ) rootA float , } // packet A { u8 x, }")).
+Eval vm_compute in ("<<<M1500>>>" ++ check (runes_of_ascii "MetaData i64_ {
+    int16 u128,
+}
 
 MetaData packetx {
-    string u128 `say ""hi""`,
-}")).
-Eval vm_compute in ("<<<M1693>>>" ++ check (runes_of_ascii "  options {
+    char[] T,
+    uint16 a1 `a\`,
+    zchar[007] uint8x,
 }
-options  { 
-MetaDataX = char ; }
-MetaData
 
-    Pad
-{
-i8 metadata
-, string
-
-    stringy 
-    // c
-	  ,  int8 As
-	`{ , }`	,
+root packet A {
+    @leftPad(' ')
+    @tag(255)
+    @leftPad('\x00')
+    repeat leftPad i64_,
+}")).
+Eval vm_compute in ("<<<M38>>>" ++ check (runes_of_ascii "packet Logon {	@calculatedFrom(""{,}"") repeat	int64 Packet	, @tag( 42 )char[] MetaDataX`doc`, } MetaData Packet	{string msg_type , Logon calculatedFrom,f32a
+    matchKey ,zchar[	0	] _x ,  }")).
+Eval vm_compute in ("<<<M1766>>>" ++ check (runes_of_ascii "MetaData u128 {
+    // @lengthOf(
+    len x `it's`,
+    BodyLength Foo `doc`,
+    string_ a1 `{ , }`,
+    calculatedFrom u8x `u8 x,`,
+    MetaDataX matchKey,
 }
-")).
-Eval vm_compute in ("<<<M1784>>>" ++ check (runes_of_ascii "packet A {
-    match k as n {
-        [
-            1, ""bb"", 007, ""d"", 5,
-            ""f"", 7, ""h""
-        ] : B,
-        2 : C,
-    },
-}")).
-Eval vm_compute in ("<<<M1968>>>" ++ check (runes_of_ascii "packet A {
-    match k as n {
-        [
-            1, 22, ""c c"", 4, 5,
-            ""f"", 7
-        ] : B,
-        2 : C,
-    },
-}")).
-Eval vm_compute in ("<<<M199>>>" ++ check (runes_of_ascii "MetaData matchKey { u8
-T	, rootA _x	, falsey options1
-`100% of %d` , zchar[ 7 ] msg_type
-, zchar /// triple
-charz ,
-}")).
-Eval vm_compute in ("<<<M50>>>" ++ check (runes_of_ascii "
-root
-    packet //
-u {float32 BodyLength ,
-} packet u {  char[ 1]  a1
-@calculatedFrom(
-""a\""b""	) ,
-} /// triple")).
-Eval vm_compute in ("<<<M1233>>>" ++ check (runes_of_ascii "options { } options { MetaDataX = char ; } MetaData Pad { i8 metadata , // c
-string stringy , int8 As `{ , }` , }")).
-Eval vm_compute in ("<<<M989>>>" ++ check (runes_of_ascii "packet A {
-    match k as n {
-        ""\
-"" : B,
-        [""\
-"", 1] : C,
-        [1,2,3,4,5,""\
-""] : D,
-    },
-}")).
-Eval vm_compute in ("<<<M1607>>>" ++ check (runes_of_ascii "
 
-  packet A  { 
-match  k
-    as n
-    {
-[	""a""
-    ,  ""bb"",""c c"" 
-]
-:
-	B
-
-    2:
-C
-
-    }
-    ,
+packet u128 {
+}")).
+Eval vm_compute in ("<<<M607>>>" ++ check (runes_of_ascii "MetaData u
+    { } MetaData o
+{ float uint8x
+`100% of %d` ,repeatCount u8x u8x, string_ leftPad
+, i32
+    Foo , int64 x `two words` , calculatedFrom
+stringy `a\` ,
 }
 ")).
-Eval vm_compute in ("<<<M954>>>" ++ check (runes_of_ascii "packet A {
-    Inner {
-        u8 x `
-x`,
-        Deep {
-            u8 y `
-x`,
-        },
-    },
-}")).
-Eval vm_compute in ("<<<M1921>>>" ++ check (runes_of_ascii "MetaData
-    f32a// @lengthOf(
-{ // `tick` ""quote"" 'q'
-
-	charz
-    msg_type ,
-
-    } 	 // " ++ [27880; 37322]%N ++ runes_of_ascii "
+Eval vm_compute in ("<<<M696>>>" ++ check (runes_of_ascii "MetaData u
+    { } MetaData o
+{ float uint8x
+`100% of %d` ,repeatCount u8x, string_ leftPad
+'', i32
+    Foo , int64 x `two words` , calculatedFrom
+stringy `a\` ,
+}
 ")).
-Eval vm_compute in ("<<<M1259>>>" ++ check (runes_of_ascii "
-options	{LittleEndian  =	true
-;
+Eval vm_compute in ("<<<M608>>>" ++ check (runes_of_ascii "MetaData u
+    { } MetaData o
+{ float uint8x
+`100% of %d` ,repeatCount ,u8x string_ leftPad
+, i32
+    Foo , int64 x `two words` , calculatedFrom
+stringy `a\` ,
+}
+")).
+Eval vm_compute in ("<<<M661>>>" ++ check (runes_of_ascii "MetaData u
+    { } MetaData o
+{ float uint8x
+`100% of %d` ,repeatCount u8x, string_ leftPad
+, i32
+    Foo , int64 x `two words`  calculatedFrom
+stringy `a\` ,
+}
+")).
+Eval vm_compute in ("<<<M619>>>" ++ check (runes_of_ascii "MetaData u
+    { } MetaData o
+{ float uint8x
+`100% of %d` ,repeatCount u8x, : leftPad
+, i32
+    Foo , int64 x `two words` , calculatedFrom
+stringy `a\` ,
+}
+")).
+Eval vm_compute in ("<<<M1781>>>" ++ check (runes_of_ascii "
 
-    }root packet
-	P {repeat 
-char  cs
+  packet
 
-, u8
-x 
+    A
+{Inner
+
+    { match
+    k 
+as
+
+    n
+
+{ [1
+
+,
+22
+
+,
+007	,
+	4 
 ,
 
-}
+    5
+    , 66
+, 7
+
+    ]:  B ,} ,
+
+    }
+,
+
+    }
 ")).
-Eval vm_compute in ("<<<M1870>>>" ++ check (runes_of_ascii "packet A {
-    B b `a
-        b`,
-    B `a
-        b`,
-    repeat B bs `a
-        b`,
-}")).
-Eval vm_compute in ("<<<M982>>>" ++ check (runes_of_ascii "packet A {
-    u32 crc @calculatedFrom(""x\
-y""),
-    @calculatedFrom(""x\
-y"") u8 y,
-}")).
-Eval vm_compute in ("<<<M837>>>" ++ check (runes_of_ascii "packet A {
+Eval vm_compute in ("<<<M166>>>" ++ check (runes_of_ascii "  options {Packet =true msg_type
+=false // 50% %s
+Logon// @lengthOf(
+=
+true
+    packetx
+//
+// `tick` ""quote"" 'q'
+=
+""abc"" ;
+    pack= ' '}
+
+")).
+Eval vm_compute in ("<<<M42>>>" ++ check (runes_of_ascii "
+root packet  x  {
+@rightPad
+( '\x00' ) repeat
+    uint32 crc , } options{
+Packet
+    // @lengthOf(
+    =char[] }	MetaData o
+    {}
+")).
+Eval vm_compute in ("<<<M1688>>>" ++ check (runes_of_ascii "  options
+{ }	options{
+
+MetaDataX =char ; }MetaData Pad{
+	i8 metadata ,	string  stringy 
+, int8	As
+	`{ , }`  ,  
+  // c
+	}")).
+Eval vm_compute in ("<<<M1697>>>" ++ check (runes_of_ascii "
+packet A 
+{ match k as 
+n	{
+[
+1 ,
+22
+	, 007
+, 4
+    , 5
+
+,
+
+66
+,
+7,
+    8
+	,
+
+9
+]
+:  B
+
+,
+	2: C
+    }
+,
+}
+
+")).
+Eval vm_compute in ("<<<M1224>>>" ++ check (runes_of_ascii "options { } options { MetaDataX = char ; } MetaData
+// c
+Pad { i8 metadata , string stringy , int8 As `{ , }` , }")).
+Eval vm_compute in ("<<<M1772>>>" ++ check (runes_of_ascii "
+packet
+A {
+match
+	k
+as n  // a
+    {	// b
+  1 // c
+    : // d
+    B 	 // e
+	  ,// f
+}// g
+    , // h
+		}
+")).
+Eval vm_compute in ("<<<M907>>>" ++ check (runes_of_ascii "packet A {
   match k as n {
-    [1, 22, 007, 4, 5, 66, 7] : B,
+    [1, ""bb"", 007, ""d"", 5, ""f"", 7, ""h"", 9, ""j"", 11, ""l""] : B
     2 : C
   },
 }")).
-Eval vm_compute in ("<<<M143>>>" ++ check (runes_of_ascii "options {
-    // `tick` ""quote"" 'q'
-    x_y_z = // " ++ [128512]%N ++ runes_of_ascii " emoji
-zchar[ 10 ]
-}
-")).
-Eval vm_compute in ("<<<M738>>>" ++ check (runes_of_ascii "i64 len u8 true : uint16 ' ' int32 : options @lengthOf( char[] MetaData")).
+Eval vm_compute in ("<<<M1422>>>" ++ check (runes_of_ascii "packet
+	A
+    {
+
+    match
+	k
+as 
+n  {
+[ ""a""
+
+,
+	""bb"" ,007
+,""d"", ""e"" ] :
+B
+    2
+	: C  }
+    , }")).
+Eval vm_compute in ("<<<M874>>>" ++ check (runes_of_ascii "packet A {
+  match k as n {
+    [""a"", ""bb"", 007, ""d"", ""e"", 66, ""g"", ""h"", 9] : B
+    2 : C
+  },
+}")).
+Eval vm_compute in ("<<<M890>>>" ++ check (runes_of_ascii "packet A {
+  match k as n {
+    [1, 22, 007, 4, 5, 66, 7, 8, 9, 10, 11] : B
+    2 : C
+  },
+}")).
+Eval vm_compute in ("<<<M843>>>" ++ check (runes_of_ascii "packet A {
+  match k as n {
+    [""a"", 22, ""c c"", 4, ""e"", 66, ""g""] : B,
+    2 : C
+  },
+}")).
+Eval vm_compute in ("<<<M1944>>>" ++ check (runes_of_ascii "MetaData charz {
+    pack MetaDataX,
+    falsey crc,
+    u32 u `// not a comment`,
+}")).
+Eval vm_compute in ("<<<M1628>>>" ++ check (runes_of_ascii "options {
+    T = 42
+    packetx = true;
+    x_y_z = char[];
+    trueish = u16
+}")).
+Eval vm_compute in ("<<<M816>>>" ++ check (runes_of_ascii "packet A {
+  match k as n {
+    [1, ""bb"", 007, ""d"", 5] : B
+    2 : C
+  },
+}")).
+Eval vm_compute in ("<<<M343>>>" ++ check (runes_of_ascii "//x
+packet
+rootA {f32
+uint8x `{ , }` ,	string msg_type`{ , }`	,
+    }")).
 Eval vm_compute in ("<<<M790>>>" ++ check (runes_of_ascii "packet A {
   match k as n {
     [1, ""bb"", 007] : B
     2 : C
   },
 }")).
-Eval vm_compute in ("<<<M36>>>" ++ check (runes_of_ascii "packet  chars { char[ 007 ]float @calculatedFrom( ""x y"" ),	}
-
-")).
-Eval vm_compute in ("<<<M774>>>" ++ check (runes_of_ascii "packet A {
+Eval vm_compute in ("<<<M781>>>" ++ check (runes_of_ascii "packet A {
   match k as n {
-    [""a""] : B
+    [1, ""bb""] : B
     2 : C
   },
+}")).
+Eval vm_compute in ("<<<M1433>>>" ++ check (runes_of_ascii "MetaData 	 // " ++ [128512]%N ++ runes_of_ascii " emoji
+	Logon  { char[42
+] Packet,  //x
 }")).
 Eval vm_compute in ("<<<M435>>>" ++ check (runes_of_ascii "packet
     asx { @calculatedFrom(
 """"  ) @tag( 255 )")).
-Eval vm_compute in ("<<<M1610>>>" ++ check (runes_of_ascii "root packet A{
+Eval vm_compute in ("<<<M3>>>" ++ check (runes_of_ascii "packet // " ++ [27880; 37322]%N ++ runes_of_ascii "
+MetaDataX {int64  leftPad , }
+")).
+Eval vm_compute in ("<<<M1487>>>" ++ check (runes_of_ascii "options {
+    a = 1;// a
+    b = 2// b
+}")).
+Eval vm_compute in ("<<<M172>>>" ++ check (runes_of_ascii "MetaData
+//x
+// @lengthOf(
+i8i8 { }
+")).
+Eval vm_compute in ("<<<M1750>>>" ++ check (runes_of_ascii "packet A {
+    u8 x `x
+        `,
+}")).
+Eval vm_compute in ("<<<M1592>>>" ++ check (runes_of_ascii "
+root 
+packet 	 // c
 
-    u8
-    x  `%%d%!` 
-, 
+	a1 { }
+")).
+Eval vm_compute in ("<<<M1077>>>" ++ check (runes_of_ascii "packet A {
+ u8 x `d" ++ [6158]%N ++ runes_of_ascii "`, // c" ++ [6158]%N ++ runes_of_ascii "
+}")).
+Eval vm_compute in ("<<<M1485>>>" ++ check (runes_of_ascii "
+// c" ++ [12288]%N ++ runes_of_ascii "
+
+	packet A
+	{  }
+
+")).
+Eval vm_compute in ("<<<M1469>>>" ++ check (runes_of_ascii "packet 
+A{
+	} 
+	// c" ++ [12288]%N ++ runes_of_ascii "
+")).
+Eval vm_compute in ("<<<M1080>>>" ++ check (runes_of_ascii "packet A {
 }
-")).
-Eval vm_compute in ("<<<M938>>>" ++ check (runes_of_ascii "root packet A {
-    u8 x `a
-    b
-  c`,
-}")).
-Eval vm_compute in ("<<<M1182>>>" ++ check (runes_of_ascii "
-// c
-options { A = ""// no comment"" }")).
-Eval vm_compute in ("<<<M980>>>" ++ check (runes_of_ascii "root packet A {
-    u8 x `%%d%!`,
-}")).
-Eval vm_compute in ("<<<M585>>>" ++ check (runes_of_ascii "MetaData u
-    { } MetaData o
-{")).
-Eval vm_compute in ("<<<M1096>>>" ++ check (runes_of_ascii "MetaData M {
-}// c
-options {}")).
-Eval vm_compute in ("<<<M1494>>>" ++ check (runes_of_ascii "packet
-
-    A{ 
-} // c" ++ [8232]%N)).
-Eval vm_compute in ("<<<M335>>>" ++ check (runes_of_ascii "//	t
-packet x {
-    }
-")).
-Eval vm_compute in ("<<<M1081>>>" ++ check (runes_of_ascii "// c x
+// c x")).
+Eval vm_compute in ("<<<M1066>>>" ++ check (runes_of_ascii "// c" ++ [8203]%N ++ runes_of_ascii "
 packet A {
 }")).
-Eval vm_compute in ("<<<M1070>>>" ++ check (runes_of_ascii "packet A {
-}
-// c" ++ [65279]%N)).
-Eval vm_compute in ("<<<M1168>>>" ++ check (runes_of_ascii "packet
-// c
-x { }")).
-Eval vm_compute in ("<<<M1945>>>" ++ check (runes_of_ascii "packet x {
+Eval vm_compute in ("<<<M1165>>>" ++ check (runes_of_ascii "// c
+packet x { }")).
+Eval vm_compute in ("<<<M1512>>>" ++ check (runes_of_ascii "
+options{
 }")).
-Eval vm_compute in ("<<<M310>>>" ++ check (runes_of_ascii "
-//
-")).
+Eval vm_compute in ("<<<M1054>>>" ++ check (runes_of_ascii "// c" ++ [12]%N)).
